@@ -4,6 +4,7 @@ package main
 // the acyclic CFG obtained by cutting loops at their headers).
 
 import (
+	"os"
 	"strconv"
 	"fmt"
 	"go/constant"
@@ -149,6 +150,9 @@ func (v *FnVerifier) addObl(st *State, kind, label, goal, text string, props []s
 		p := v.eng.prog.Fset.Position(pos)
 		o.Pos = fmt.Sprintf("%s:%d", p.Filename, p.Line)
 	}
+	if len(o.Props) == 0 && v.fc != nil && kind == "safety" && len(v.fc.SafetyProps) > 0 {
+		o.Props = v.fc.SafetyProps
+	}
 	if len(o.Props) == 0 && v.fc != nil {
 		o.Props = v.fc.Serves
 	}
@@ -247,7 +251,26 @@ func (fr *Frame) analyzeLoops() {
 			}
 		}
 	}
-	sort.Slice(headers, func(i, j int) bool { return fr.headerPos(headers[i]) < fr.headerPos(headers[j]) })
+	// loops are numbered in source order (smallest source position inside the loop; an enclosing
+	// loop before the loops it contains), whatever their form (for / range)
+	srcPos := map[*ssa.BasicBlock]int{}
+	for _, h := range headers {
+		srcPos[h] = fr.loopSrcPos(h, backSrc[h])
+	}
+	sort.SliceStable(headers, func(i, j int) bool {
+		if srcPos[headers[i]] != srcPos[headers[j]] {
+			return srcPos[headers[i]] < srcPos[headers[j]]
+		}
+		if headers[i].Dominates(headers[j]) != headers[j].Dominates(headers[i]) {
+			return headers[i].Dominates(headers[j])
+		}
+		return headers[i].Index < headers[j].Index
+	})
+	if os.Getenv("GOVC_DEBUG_LOOPS") != "" && fr.top {
+		for i, h := range headers {
+			fmt.Fprintf(os.Stderr, "LOOPS %s old=%d header=%s(%d) hpos=%d srcpos=%d\n", fr.fn.String(), i, h.Comment, h.Index, fr.headerPos(h), fr.loopSrcPos(h, backSrc[h]))
+		}
+	}
 	for i, h := range headers {
 		li := &loopInfo{header: h, ordinal: i, inLoop: map[*ssa.BasicBlock]bool{h: true}, names: map[string]ssa.Value{}}
 		// natural loop: blocks that reach a back-edge source without passing through h
@@ -306,8 +329,58 @@ func (fr *Frame) analyzeLoops() {
 				}
 			}
 		}
+		// a classic counting loop (for i := a; …; i++): its single induction variable also answers to
+		// _i, so that invariants survive a change of loop form or a renamed counter
+		if _, have := li.names["_i"]; !have {
+			var ind []*ssa.Phi
+			for _, in := range h.Instrs {
+				phi, ok := in.(*ssa.Phi)
+				if !ok {
+					continue
+				}
+				for _, e := range phi.Edges {
+					if bo, ok := e.(*ssa.BinOp); ok && bo.Op == token.ADD && bo.X == phi {
+						if c, ok := bo.Y.(*ssa.Const); ok && c.Value != nil && c.Value.ExactString() == "1" && li.inLoop[bo.Block()] {
+							ind = append(ind, phi)
+						}
+					}
+				}
+			}
+			if len(ind) == 1 {
+				li.names["_i"] = ind[0]
+				li.names[fmt.Sprintf("_i%d", i)] = ind[0]
+			}
+		}
 		fr.loops[h] = li
 	}
+}
+
+// loopSrcPos: smallest source position of any instruction in the natural loop of h.
+func (fr *Frame) loopSrcPos(h *ssa.BasicBlock, back []*ssa.BasicBlock) int {
+	in := map[*ssa.BasicBlock]bool{h: true}
+	stack := append([]*ssa.BasicBlock{}, back...)
+	for _, b := range back {
+		in[b] = true
+	}
+	for len(stack) > 0 {
+		b := stack[len(stack)-1]
+		stack = stack[:len(stack)-1]
+		for _, p := range b.Preds {
+			if !in[p] {
+				in[p] = true
+				stack = append(stack, p)
+			}
+		}
+	}
+	best := 1 << 30
+	for b := range in {
+		for _, ins := range b.Instrs {
+			if ins.Pos().IsValid() && int(ins.Pos()) < best {
+				best = int(ins.Pos())
+			}
+		}
+	}
+	return best
 }
 
 func (fr *Frame) headerPos(b *ssa.BasicBlock) int {
@@ -794,7 +867,11 @@ func (fr *Frame) safetyObl(st *State, kind, cond, text string, pos token.Pos) {
 	v := fr.v
 	if fr.safety(kind) {
 		v.siteCount[kind]++
-		v.addObl(st, "safety", fmt.Sprintf("%s#%d", kind, v.siteCount[kind]), cond, text, nil, pos)
+		var props []string
+		if v.fc != nil {
+			props = v.fc.SafetyProps
+		}
+		v.addObl(st, "safety", fmt.Sprintf("%s#%d", kind, v.siteCount[kind]), cond, text, props, pos)
 	}
 	// execution past a failed check is not modelled
 	v.smt.assert(implies(st.reach, cond))
@@ -895,6 +972,7 @@ func (fr *Frame) execInstr(st *State, in ssa.Instruction) {
 			fr.safetyObl(st, "nil", "(not (= "+addr.T+" 0))", "nil dereference: "+x.String(), x.Pos())
 		}
 		fr.checkGuarded(st, addr, x.Pos(), "write")
+		fr.checkFrozen(st, x)
 		v.storePtr(st, addr, deref(x.Addr.Type()), val)
 		fr.siteAsserts(st, "store", x.Addr, nil, x.Pos())
 	case *ssa.Field:
